@@ -639,6 +639,26 @@ def chain_to(sc, stop):
     return out
 
 
+KEY_COMP_TARGET = 'comprehension-target-visible-outside-comprehension'
+KEY_CLASS_GLOBAL = 'class-global-declaration-applied-inside-class-level-comprehension'
+
+
+def comp_targets_of(S):
+    """mangled iteration variables of the comprehensions that belong to non-comprehension scope S"""
+    out = set()
+    todo = [c for c in S.children if c.kind == 'comp']
+    while todo:
+        c = todo.pop()
+        out |= c.targets
+        todo.extend(x for x in c.children if x.kind == 'comp')
+    return out
+
+
+def comp_target_only(S, m):
+    """S has identifier m as a comprehension iteration variable and binds it in no other way"""
+    return isinstance(S, Sc) and S.kind != 'comp' and m in comp_targets_of(S) and binding_kinds(S, m) == {'unknown'}
+
+
 def classify(b, sc, raw, m, exp, ekind, alt, o):
     """mechanism label from the syntactic features of the failing read."""
     rs = sc.noncomp()
@@ -656,6 +676,19 @@ def classify(b, sc, raw, m, exp, ekind, alt, o):
         if alt_is_comp_target and alt_comp.noncomp() is o:
             return 'class-level-comprehension-target-visible-in-nested-scope' + suffix
         return 'class-binding-visible-in-nested-scope' + suffix
+    # family A: supp files comprehension variables under the enclosing scope's locals, so a scope that has the
+    # identifier ONLY as a comprehension variable shows it after/outside the comprehension, to nested scopes,
+    # and is taken for the owner by free-variable / nonlocal owner lookup
+    if o_is_scope and (o is rs or o.kind != 'class') and comp_target_only(o, m):
+        return KEY_COMP_TARGET + suffix
+    if exp is not GLOBAL_OWNERS and not o_is_scope:
+        # family B: the compiler does not apply a class body's global declaration to the comprehensions
+        # (function-like scopes) nested in that body, supp does
+        e = next(iter(exp))
+        if sc.kind == 'comp' and rs.kind == 'class' and rs in chain_to(sc, e):
+            sym = rs.lookup(m)
+            if sym is not None and sym.is_declared_global():
+                return KEY_CLASS_GLOBAL + suffix
     if exp is not GLOBAL_OWNERS:
         e = next(iter(exp))
         nearer = chain_to(sc, e)                     # scopes between the read and the compiler's owner
@@ -668,7 +701,7 @@ def classify(b, sc, raw, m, exp, ekind, alt, o):
             if alt_is_comp_target and alt_comp.noncomp() is o:
                 if o.kind == 'class' and o is not rs:
                     return 'class-level-comprehension-target-visible-in-nested-scope' + suffix
-                return 'comprehension-target-visible-outside-comprehension' + suffix
+                return KEY_COMP_TARGET + suffix
             if o.kind == 'class' and (o is not rs or sc.kind == 'comp'):
                 return 'class-binding-visible-in-nested-scope' + suffix
             return 'wrong-owner:stopped-at-nearer-%s,expected-%s(%s)%s' % (owner_kind(o, sc), e.kind, ekind, suffix)
@@ -693,7 +726,7 @@ def classify(b, sc, raw, m, exp, ekind, alt, o):
         if alt_is_comp_target and alt_comp.noncomp() is o:
             if o.kind == 'class' and o is not rs:
                 return 'class-level-comprehension-target-visible-in-nested-scope' + suffix
-            return 'comprehension-target-visible-outside-comprehension' + suffix
+            return KEY_COMP_TARGET + suffix
         for s in chain_to(sc, o):
             if s.kind != 'module':
                 sym = s.lookup(m)
@@ -986,7 +1019,31 @@ def dispatch(arg):
     return work_files(arg) if arg['kind'] == 'files' else work_gen(arg)
 
 
+def run_witnesses(run):
+    """re-analyse the committed witness inputs of the known mechanisms first (witnesses/C05/<key>.py)"""
+    wdir = os.path.join(core.VERIF, 'witnesses', 'C05')
+    if not os.path.isdir(wdir):
+        return
+    for fn in sorted(os.listdir(wdir)):
+        if not fn.endswith('.py'):
+            continue
+        key = fn[:-3]
+        path = os.path.join(wdir, fn)
+        with open(path) as f:
+            text = f.read()
+        part = core.Part()
+        analyse(text, path, wdir, part, 'witness')
+        d = part.dump()
+        mechs = sorted(set(v['mech'] for v in d['violations']))
+        run.count('witnesses_run')
+        run.extra.setdefault('witnesses', {})[key] = {'mechanisms_observed': mechs, 'reproduces': key in mechs}
+        if key not in mechs:
+            run.notes.append('witness %s: finding no longer reproduces (observed: %s)' % (key, mechs or 'no violation'))
+        run.merge(d)
+
+
 def main(run):
+    run_witnesses(run)
     files = corpus.select(run, run.pick(120, None))
     std_root = corpus.stdlib_root()
     roots = {}
@@ -1018,6 +1075,9 @@ def main(run):
         ranks[v['mech']] = r + 1
         out.append((r, len(out), v))
     run.violations[:] = [v for r, j, v in sorted(out, key=lambda t: (t[0], t[1]))]
+    run.extra['distinct_cells_covered'] = {
+        'cells(read-scope|compiler-says|supp-owners)': len(run.hists.get('cells(read-scope|compiler-says|supp-owners)', {})),
+        'note': 'the histogram below keeps the 60 most frequent cells only'}
     run.extra['workload'] = {
         'real_files': len(files),
         'generated_modules': ngen,
